@@ -58,6 +58,8 @@ MUTANTS = [
  {"id": "single-pass-slice-without-order", "kind": "break", "edits": [{"patch": "/verif/benign/m-plist-2/patch.diff"}, ("src/plist.rs", "if start < idx && tstart < idx {\n                    let entry", "if tstart < idx {\n                    let entry")], "expect": ["PANIC@plist::Plist::from_bytes#call:index"]},
  {"id": "read-until-form-benign", "kind": "benign", "edits": [{"patch": "/verif/benign/digest-2/patch.diff"}]},
  {"id": "read-until-loop-ignores-eof", "kind": "break", "edits": [{"patch": "/verif/benign/digest-2/patch.diff"}, ("src/digest.rs", "        if bufreader.read_until(b'\\n', &mut line)? == 0 {\n            break;\n        }", "        if bufreader.read_until(b'\\n', &mut line)? == 0 && line.len() > 1 {\n            break;\n        }")], "expect": ["TERM@digest::hash_patch_internal"]},
+ {"id": "opspan-struct-benign", "kind": "benign", "edits": [{"patch": "/verif/benign/h3-dewey-2/patch.diff"}]},
+ {"id": "opspan-slice-between-wrong-records", "kind": "break", "edits": [{"patch": "/verif/benign/h3-dewey-2/patch.diff"}, ("src/dewey.rs", "let p = &pattern[lower.version..upper.start];", "let p = &pattern[upper.version..lower.start];")], "expect": ["PANIC@dewey::Dewey::new#call:index"]},
  {"id": "probe-panic-division-by-len", "kind": "break", "edits": [(S, "        let slen = input_string.len();", "        let slen = input_string.len();\n        let _avg = slen / self.entries.len();")], "expect": ["PANIC"]},
  {"id": "probe-panic-remove-first-entry", "kind": "break", "edits": [(L, "        Ok(plist)\n    }\n\n    /**\n     * Return the package name as specified", "        if plist.entries.len() > 1000000 {\n            plist.entries.remove(0);\n        }\n        Ok(plist)\n    }\n\n    /**\n     * Return the package name as specified")], "expect": []},
 ]
